@@ -5,6 +5,8 @@ CONSTANTS
   Cost <- CostDef
   Variant = "shared"
   UseCache = TRUE
+  Nest = FALSE
+  StoreFirst = FALSE
   MaxHist = FALSE
 INVARIANT RightAnswer
 CHECK_DEADLOCK FALSE
